@@ -30,6 +30,9 @@
 #include <stdlib.h>
 #include <string.h>
 #include <soundswallower/alignment.h>
+#include <soundswallower/cmn.h>
+#include <soundswallower/mdef.h>
+#include <unistd.h>
 #include <soundswallower/configuration.h>
 #include <soundswallower/decoder.h>
 #include <soundswallower/dict.h>
@@ -51,6 +54,7 @@ static void failf(const char *prop, const char *fmt, const char *a, const char *
     if (fails++ < 12) printf("FAIL [%s] %s: %s\n", prop, scen, m);
 }
 static const char *CMN0 = "40,3,-1,0,0,0,0,0,0,0,0,0,0";
+static double FRATE = 100.0;   /* frames per second of the decoder under test */
 static char repo[400];
 
 /* ---------- helpers ---------- */
@@ -289,6 +293,23 @@ static void check_c04(decoder_t *d)
             if (ssum != alignment_iter_get(p)->score) failf("C04", "phone score under \"%s\" is not the sum of its states%s", seg[i].word, NULL);
         }
         if (wid >= 0 && np != dict_pronlen(d->dict, wid)) failf("C04", "\"%s\" does not have one phone entry per dictionary phone%s", seg[i].word, NULL);
+        /* the states under each phone are that phone's emitting states: the senones of the triphone (phone, left neighbour,
+         * right neighbour, position in word), looked up in the model definition independently of the dict2pid tables */
+        if (wid >= 0 && np == dict_pronlen(d->dict, wid)) {
+            bin_mdef_t *md = d->acmod->mdef; int len = np, j, sil = bin_mdef_silphone(md);
+            int lc = i > 0 && seg[i - 1].wid >= 0 ? dict_last_phone(d->dict, seg[i - 1].wid) : sil;
+            int rc = i + 1 < nw && seg[i + 1].wid >= 0 ? dict_first_phone(d->dict, seg[i + 1].wid) : sil;
+            for (p = alignment_iter_children(w), j = 0; p; p = alignment_iter_next(p), j++) {
+                int ci = dict_pron(d->dict, wid, j), l = j == 0 ? lc : dict_pron(d->dict, wid, j - 1), r = j == len - 1 ? rc : dict_pron(d->dict, wid, j + 1);
+                int pos = len == 1 ? WORD_POSN_SINGLE : j == 0 ? WORD_POSN_BEGIN : j == len - 1 ? WORD_POSN_END : WORD_POSN_INTERNAL;
+                int pid = bin_mdef_phone_id_nearest(md, ci, l, r, pos), ssid = bin_mdef_pid2ssid(md, pid), k = 0;
+                alignment_iter_t *st;
+                for (st = alignment_iter_children(p); st; st = alignment_iter_next(st), k++) {
+                    char exp[20]; snprintf(exp, sizeof exp, "%d", (int)bin_mdef_sseq2sen(md, ssid, k));
+                    if (k < bin_mdef_n_emit_state(md) && strcmp(exp, alignment_iter_name(st)) != 0) { failf("C04", "a state under \"%s\" is not an emitting state of its phone in context (senone %s expected)", seg[i].word, exp); alignment_iter_free(st); break; }
+                }
+            }
+        }
         if (pdu_sum != du) failf("C04", "phones do not partition the word \"%s\"%s", seg[i].word, NULL);
         if (psum != wscore) failf("C04", "word score of \"%s\" is not the sum of its phones%s", seg[i].word, NULL);
     }
@@ -390,11 +411,10 @@ static void check_c14(decoder_t *d, double off, int level)
         if (jcount(w) != ns) { failf("C14", "JSON word list and segmentation differ in length%s%s", NULL, NULL); return; }
         for (i = 0, w = w ? w->kids : NULL; w; w = w->next, i++) {
             jv_t *t = jget(w, "t"), *b = jget(w, "b"), *du = jget(w, "d"), *p = jget(w, "p");
-            double frate = 100.0;
             if (!t || !b || !du || !p) { failf("C14", "JSON word entry lacks a field%s%s", NULL, NULL); break; }
             if (strcmp(t->str ? t->str : "", seg[i].word) != 0) failf("C14", "JSON word \"%s\" differs from segment \"%s\"", t->str, seg[i].word);
-            if (fabs(b->num - (seg[i].sf / frate + off)) > 0.0011) failf("C14", "JSON start of \"%s\" differs from the segment start%s", seg[i].word, NULL);
-            if (fabs(du->num - ((seg[i].ef - seg[i].sf + 1) / frate)) > 0.0011) failf("C14", "JSON duration of \"%s\" differs from the segment%s", seg[i].word, NULL);
+            if (fabs(b->num - (seg[i].sf / FRATE + off)) > 0.0011) failf("C14", "JSON start of \"%s\" differs from the segment start%s", seg[i].word, NULL);
+            if (fabs(du->num - ((seg[i].ef - seg[i].sf + 1) / FRATE)) > 0.0011) failf("C14", "JSON duration of \"%s\" differs from the segment%s", seg[i].word, NULL);
             if (fabs(p->num - logmath_exp(decoder_logmath(d), seg[i].prob)) > 0.0011) failf("C14", "JSON probability of \"%s\" differs from the segment%s", seg[i].word, NULL);
             if (p->num < 0 || p->num > 1.0005) failf("C14", "JSON probability of \"%s\" is not in [0,1]%s", seg[i].word, NULL);
         }
@@ -409,7 +429,7 @@ static void check_c14(decoder_t *d, double off, int level)
                 alignment_iter_seg(it, &st, &du);
                 if (!t || !b || !dd) { failf("C14", "JSON word entry lacks a field%s%s", NULL, NULL); break; }
                 if (strcmp(t->str ? t->str : "", alignment_iter_name(it)) != 0) failf("C14", "JSON word \"%s\" differs from alignment word \"%s\"", t->str, alignment_iter_name(it));
-                if (fabs(b->num - (st / 100.0 + off)) > 0.0011 || fabs(dd->num - du / 100.0) > 0.0011) failf("C14", "JSON times of \"%s\" differ from the alignment%s", alignment_iter_name(it), NULL);
+                if (fabs(b->num - (st / FRATE + off)) > 0.0011 || fabs(dd->num - du / FRATE) > 0.0011) failf("C14", "JSON times of \"%s\" differ from the alignment%s", alignment_iter_name(it), NULL);
                 k = 0; for (p = alignment_iter_children(it); p; p = alignment_iter_next(p)) k++;
                 if (jcount(kids) != k) failf("C14", "JSON phone list of \"%s\" differs in length from the alignment%s", alignment_iter_name(it), NULL);
                 else {
@@ -417,7 +437,7 @@ static void check_c14(decoder_t *d, double off, int level)
                     for (p = alignment_iter_children(it); p && pj; p = alignment_iter_next(p), pj = pj->next) {
                         int ps, pd; alignment_iter_seg(p, &ps, &pd);
                         if (!jget(pj, "t") || strcmp(jget(pj, "t")->str, alignment_iter_name(p)) != 0) failf("C14", "JSON phone differs from alignment phone \"%s\"%s", alignment_iter_name(p), NULL);
-                        if (!jget(pj, "b") || fabs(jget(pj, "b")->num - (ps / 100.0 + off)) > 0.0011 || !jget(pj, "d") || fabs(jget(pj, "d")->num - pd / 100.0) > 0.0011) failf("C14", "JSON phone times differ from the alignment under \"%s\"%s", alignment_iter_name(it), NULL);
+                        if (!jget(pj, "b") || fabs(jget(pj, "b")->num - (ps / FRATE + off)) > 0.0011 || !jget(pj, "d") || fabs(jget(pj, "d")->num - pd / FRATE) > 0.0011) failf("C14", "JSON phone times differ from the alignment under \"%s\"%s", alignment_iter_name(it), NULL);
                         if (level >= 2) {
                             alignment_iter_t *s; int nsj = jcount(jget(pj, "w")), nst = 0;
                             for (s = alignment_iter_children(p); s; s = alignment_iter_next(s)) nst++;
@@ -465,7 +485,7 @@ static void set_gram(decoder_t *d, const char *file, int fsg)
     if (fsg) { fsg_model_t *m = fsg_model_readfile(path, decoder_logmath(d), config_float(decoder_config(d), "lw")); if (!m || decoder_set_fsg(d, m) < 0) { printf("FAIL fsg %s\n", path); exit(1); } }
     else if (decoder_set_jsgf_file(d, path) < 0) { printf("FAIL grammar %s\n", path); exit(1); }
 }
-enum { ONE_CALL, BLOCKS, FLOAT32 };
+enum { ONE_CALL, BLOCKS, FLOAT32, BLOCKS_EARLY };
 static void decode(decoder_t *d, int slot, int mode)
 {
     size_t pos = 0, i;
@@ -478,6 +498,18 @@ static void decode(decoder_t *d, int slot, int mode)
         const char *ph;
         decoder_process_int16(d, pcm[slot] + pos, n, 0, 0);
         pos += n;
+        /* BLOCKS_EARLY: partial results only during the first 1.5 s, none afterwards */
+        if (mode == BLOCKS_EARLY && pos > 24000) continue;
+        /* (C18) the normalisation state exported mid-utterance is the state in use, to the printed precision */
+        if (want("C18") && d->acmod->fcb->cmn_struct) {
+            const char *r = decoder_get_cmn(d, 0); cmn_t *cm = d->acmod->fcb->cmn_struct; int q; const char *c = r;
+            cases++;
+            for (q = 0; r && q < cm->veclen && q < 13; q++) {
+                double v = atof(c), m = cm->cmn_mean[q];
+                if (fabs(v - m) > 0.006 + 1e-4 * fabs(m)) { char a[40], b[40]; snprintf(a, 40, "%g", v); snprintf(b, 40, "%g", m); failf("C18", "channel-normalisation text exported mid-utterance says %s where the state is %s", a, b); break; }
+                c = strchr(c, ','); if (!c) break; c++;
+            }
+        }
         /* partial result: the label sequence of some path leaving the start state */
         ph = decoder_hyp(d, NULL);
         if (ph && active_fsg(d) && want("C01")) {
@@ -570,9 +602,41 @@ int main(int argc, char **argv)
     scen = "en-us goforward.raw, goforward.fsg";
     set_gram(d, "goforward.fsg", 1);
     decode(d, 0, ONE_CALL); check_all(d, 1);
+    /* recordings cut short of the end of the sentence: a hypothesis only if the path reaches the final state, and never
+     * a segmentation without one */
+    {
+        static const size_t cut[] = { 26000, 20000, 13000 }; size_t full = npcm[0]; int q;
+        for (q = 0; q < 3; q++) { scen = "en-us goforward.raw cut short (26000 / 20000 / 13000 samples), goforward.fsg"; npcm[0] = cut[q]; decode(d, 0, ONE_CALL); check_all(d, 0); decode(d, 0, BLOCKS); check_all(d, 0); }
+        npcm[0] = full;
+    }
+    /* a grammar whose probabilities sit on null transitions (also the one into the final state) and on alternatives */
+    {
+        char path[700]; FILE *f; fsg_model_t *m;
+        snprintf(path, sizeof path, "%s/e2e_wnull_%d.fsg", getenv("TMPDIR") ? getenv("TMPDIR") : "/tmp", (int)getpid());
+        f = fopen(path, "w");
+        if (f) {
+            fputs("FSG_BEGIN wnull\nNUM_STATES 8\nSTART_STATE 0\nFINAL_STATE 7\n"
+                  "TRANSITION 0 1 0.7 go\nTRANSITION 0 1 0.3 going\nTRANSITION 1 2 1.0 forward\nTRANSITION 1 2 0.5 backward\nTRANSITION 2 3 0.6\n"
+                  "TRANSITION 3 4 0.5 ten\nTRANSITION 3 4 0.5 two\nTRANSITION 4 5 0.8 meters\nTRANSITION 4 5 0.2 meter\nTRANSITION 5 6 0.4\nTRANSITION 6 7 0.5\nTRANSITION 4 7 0.1\nFSG_END\n", f);
+            fclose(f);
+            m = fsg_model_readfile(path, decoder_logmath(d), config_float(decoder_config(d), "lw"));
+            unlink(path);
+            if (m && decoder_set_fsg(d, m) == 0) {
+                scen = "en-us goforward.raw, grammar with weighted null transitions (also into the final state)";
+                decode(d, 0, ONE_CALL); check_all(d, 1);
+                decode(d, 0, BLOCKS); check_all(d, 1);
+            } else failf("C09", "grammar with weighted null transitions refused%s%s", NULL, NULL);
+        }
+    }
+    scen = "en-us goforward.raw, JSGF grammar, partial results during the first 1.5 s only";
+    set_gram(d, "goforward.gram", 0);
+    decode(d, 0, BLOCKS_EARLY); check_all(d, 1);
     scen = "en-us goforward.raw, forced alignment text";
     if (decoder_set_align_text(d, "go forward ten meters") < 0) failf("C09", "alignment text refused%s%s", NULL, NULL);
     decode(d, 0, ONE_CALL); check_all(d, 1);
+    /* one-phone words inside the sentence (cross-word contexts to both sides) */
+    scen = "en-us goforward.raw, forced alignment text with one-phone words inside";
+    if (decoder_set_align_text(d, "go a forward i ten oh meters") == 0) { decode(d, 0, ONE_CALL); check_all(d, 0); }
     if (want("C08") || want("C09")) {
         scen = "en-us goforward.raw again after other utterances and grammar switches";
         set_gram(d, "goforward.gram", 0);
@@ -602,6 +666,22 @@ int main(int argc, char **argv)
         decoder_free(d2);
     }
     decoder_free(d);
+    /* another frame rate (times in the JSON line are frame index / frame rate + offset) */
+    {
+        char path[600]; config_t *c = config_init(NULL);
+        snprintf(path, sizeof path, "%s/model/en-us", repo);
+        config_set_str(c, "hmm", path); config_set_str(c, "loglevel", "FATAL"); config_set_str(c, "cmn", "live"); config_set_int(c, "frate", 80);
+        d = decoder_init(c);
+        if (d) {
+            FRATE = 80.0;
+            scen = "en-us goforward.raw at 80 frames per second, JSGF grammar";
+            set_gram(d, "goforward.gram", 0);
+            decode(d, 0, ONE_CALL); check_all(d, 0);
+            decode(d, 0, BLOCKS); check_all(d, 0);
+            decoder_free(d);
+            FRATE = 100.0;
+        } else failf("C09", "decoder with frate 80 is not created%s%s", NULL, NULL);
+    }
     scen = "fr-fr goforward_fr.raw, JSGF grammar";
     d = make("fr-fr"); set_gram(d, "goforward_fr.gram", 0);
     decode(d, 3, ONE_CALL); check_all(d, 1);
